@@ -251,8 +251,9 @@ func checkPartialUpdates(p *Prog, r *Report, kp func(string, string) string, sco
 // ERRDROP — `if err := f(); err != nil { log(err) }` followed by `return outerErr` / `return nil`: the failure of f is looked at
 // and then lost. For a function that returns an error, every path that starts on the `e != nil` side of a test of a call's
 // error e and reaches a return without going round a loop or through a further tested fallible step (a fallback) must return something that can be that failure: e itself (possibly
-// through a phi or as an argument of a wrapping call), or a certain error. Flagged: a return of the nil constant, and a return
-// of another error value that the path condition at the return pins to nil (a stale outer variable).
+// through a phi or as an argument of a wrapping call), or a certain error. Flagged: a return of another error value that the
+// path condition at the return pins to nil (a stale outer variable — the shadowing slip). A literal `return nil` is a decision
+// the author wrote down (log and carry on) and is not flagged.
 type droppedError struct {
 	Test *ssa.If
 	Ret  *ssa.Return
@@ -369,7 +370,7 @@ func droppedErrorsIn(p *Prog, fn *ssa.Function) (nTests int, out []droppedError)
 				switch {
 				case carries(rv), definitelyError(rv, 0) && !isNilConst(u):
 				case isNilConst(u):
-					out = append(out, droppedError{iff, x, "returns nil"})
+					// a literal `return nil` after looking at the failure is a decision the author wrote down ("log and carry on")
 				default:
 					if o == nil {
 						o = NewOrigin(p, fn)
@@ -440,15 +441,15 @@ func Fine(a, b string) (int, error) {
 `
 
 func checkNoDroppedErrors(p *Prog, r *Report, clause, scopeName string, scope func(fn *ssa.Function) bool) {
-	rule := "a failure that is tested is not lost: on the err != nil side of a test, a function that returns an error never returns nil or a stale error variable that is nil there"
+	rule := "a failure that is tested is not lost: on the err != nil side of a test, a function that returns an error never returns a stale error variable that is nil there (the shadowing slip)"
 	ckey := "ERRDROP:" + clause + ":control#fixture"
 	if fx, err := buildFixture(p, "edfx", errDropFixture); err != nil {
 		r.Undecided(ckey, "positive control for the dropped-error rule", "checker/errprop.go", "fixture does not build: "+err.Error())
 	} else {
 		cnt := func(n string) string { t, l := droppedErrorsIn(p, fx[n]); return fmt.Sprintf("%d:%d", t, len(l)) }
 		got := cnt("Lost") + "/" + cnt("Swallowed") + "/" + cnt("Fine")
-		r.Check(got == "2:1/1:1/2:0", ckey, "positive control: an error that is logged and then replaced by a stale nil variable, and one that is logged and replaced by nil, are reported; returned and wrapped errors are not", "checker/errprop.go (in-memory fixture, not executed)",
-			"fixture tests:dropped "+got, "fixture tests:dropped "+got+", expected 2:1/1:1/2:0: the matcher is broken")
+		r.Check(got == "2:1/1:0/2:0", ckey, "positive control: an error that is logged and then replaced by a stale variable that is nil there is reported; a literal `return nil`, returned and wrapped errors are not", "checker/errprop.go (in-memory fixture, not executed)",
+			"fixture tests:dropped "+got, "fixture tests:dropped "+got+", expected 2:1/1:0/2:0: the matcher is broken")
 	}
 	nT, nBad, nFn := 0, 0, 0
 	for _, fn := range p.ModFuncs {
